@@ -2039,4 +2039,4 @@ BUILTIN_EXCEPTIONS = {"Exception", "BaseException", "ValueError", "TypeError", "
                       "ZeroDivisionError", "AttributeError", "RuntimeError", "AssertionError", "LookupError",
                       "IsADirectoryError", "NotADirectoryError", "KeyboardInterrupt", "SystemExit", "UnicodeDecodeError"}
 BUILTIN_EXC_ALIASES = {}
-MODULE_CONSTS = {"os.sep": lambda: VStr("/"), "logging.INFO": lambda: VInt(20), "logging.DEBUG": lambda: VInt(10)}
+MODULE_CONSTS = {"os.sep": lambda: VStr("/"), "os.altsep": lambda: VNone(), "logging.INFO": lambda: VInt(20), "logging.DEBUG": lambda: VInt(10)}
